@@ -120,23 +120,24 @@ pub fn run(rep: &Report, only_terminal_and_first: bool) -> E3Result {
                 }
             }
         }
-        match j.get("violation") {
-            Some(v @ J::Obj(_)) => {
-                let prop = v.get("property").and_then(|x| x.as_str()).unwrap_or("C03");
-                let sig = v.get("signature").and_then(|x| x.as_str()).unwrap_or("schedule");
-                let summary = v.get("summary").and_then(|x| x.as_str()).unwrap_or("");
-                rep.fail(
-                    prop,
-                    sig,
-                    format!("{} [preemption bound {}, {} go(s)]", summary, bound, m.gos),
-                    J::obj().set("kind", J::s("e3-model")).set("fen", J::s(m.fen)).set("expiry", J::s(&ks)).set("preemption_bound", J::s(&bound)).set("gos", J::Int(m.gos as i128)).set("command", J::s(&format!("{} run '{}' {} {} {}", SCHED_BIN, m.fen, ks, bound, m.gos))),
-                );
-            }
-            _ => {
-                if !complete {
-                    incomplete += 1;
-                }
-            }
+        let viols: Vec<J> = match j.get("violation") {
+            Some(J::Arr(a)) => a.clone(),
+            Some(v @ J::Obj(_)) => vec![v.clone()],
+            _ => Vec::new(),
+        };
+        if viols.is_empty() && !complete {
+            incomplete += 1;
+        }
+        for v in &viols {
+            let prop = v.get("property").and_then(|x| x.as_str()).unwrap_or("C03");
+            let sig = v.get("signature").and_then(|x| x.as_str()).unwrap_or("schedule");
+            let summary = v.get("summary").and_then(|x| x.as_str()).unwrap_or("");
+            rep.fail(
+                prop,
+                sig,
+                format!("{} [preemption bound {}, {} go(s)]", summary, bound, m.gos),
+                J::obj().set("kind", J::s("e3-model")).set("fen", J::s(m.fen)).set("expiry", J::s(&ks)).set("preemption_bound", J::s(&bound)).set("gos", J::Int(m.gos as i128)).set("command", J::s(&format!("{} run '{}' {} {} {}", SCHED_BIN, m.fen, ks, bound, m.gos))),
+            );
         }
         if *i % 37 == 0 {
             rep.sample(J::obj().set("model", J::s(&format!("{} expiry {} bound {} gos {}", m.fen, ks, bound, m.gos))).set("executions", j.get("executions").cloned().unwrap_or(J::Null)).set("outcomes", j.get("outcomes").cloned().unwrap_or(J::Null)));
